@@ -196,10 +196,11 @@ def param(R):
     g = R.cfg(q)
     rd = ReachingDefs(g)
     rc = calls_to(R, g, S + '.run')
-    need(len(rc) == 1, 'connect(): expected one session.run call')
-    a = arg_of(rc[0][1], R.func(S + '.run'), 'auto_pong')
-    R.ob('C14.param', 'connect -> run', a is not None and is_param(rd, rc[0][0], a, 'auto_pong'),
-         'run(auto_pong=%s)' % U(a), func=q, node=rc[0][1], construct='connect->run auto_pong=%s' % U(a))
+    need(len(rc) >= 1, 'connect(): expected a session.run call')
+    for (rn_, rc_) in rc:
+        a = arg_of(rc_, R.func(S + '.run'), 'auto_pong')
+        R.ob('C14.param', 'connect -> run', a is not None and is_param(rd, rn_, a, 'auto_pong'),
+             'run(auto_pong=%s)' % U(a), func=q, node=rc_, construct='connect->run auto_pong=%s' % U(a))
     d1 = fold(R, default_of(R.func(q), 'auto_pong'), None)
     d2 = fold(R, default_of(R.func(S + '.run'), 'auto_pong'), None)
     R.ob('C14.param', 'auto_pong defaults to True', d1 is True and d2 is True, 'defaults %s / %s' % (d1, d2), func=q, node=None,
